@@ -1,6 +1,6 @@
 #!/usr/bin/env python3
 """dev helper: apply semantics-PRESERVING edits to a scratch copy of /repo and run the relevant checks on it (VERIF_REPO);
-a VIOLATION here is a false alarm, an INCONCLUSIVE a loss of coverage.  usage: refactor_check.py [n ...]"""
+a VIOLATION here is a false alarm, an INCONCLUSIVE a loss of coverage.  usage: refactor_check.py N [N ..] | all   (without arguments: lists the edits)"""
 import os, shutil, subprocess, sys, tempfile
 HC = 'zeep-lib/src/model/helpers_content.rs'
 DOC = 'zeep-lib/src/model/doc.rs'
@@ -148,7 +148,13 @@ EDITS += [
                 && node.rust_type.xml_name().is_some_and(|n| n == xml_name)
                 && node.in_namespace.as_deref() == namespace""")], 'C09'),
 ]
-sel = [int(x) for x in sys.argv[1:]] or range(len(EDITS))
+if len(sys.argv) < 2:
+    # every edit costs a build plus one or two checks (about a minute each): list them and ask for numbers (or `all`)
+    for k_, e_ in enumerate(EDITS):
+        print(k_, e_[0], '->', e_[-1])
+    print('usage: refactor_check.py N [N ..] | all')
+    sys.exit(0)
+sel = range(len(EDITS)) if sys.argv[1] == 'all' else [int(x) for x in sys.argv[1:]]
 for k in sel:
     name, f, reps, ids = EDITS[k]
     d = tempfile.mkdtemp(prefix='zv-ref.', dir='/var/tmp')
